@@ -98,7 +98,7 @@ class Ctx:
         self.seed = seed
         self.rng = random.Random(seed * 1000003 + int(hashlib.sha256(pid.encode()).hexdigest()[:8], 16))
         self.t0 = time.time()
-        self.dir = os.path.join(BUILD, pid)
+        self.dir = os.path.join(BUILD, pid + ("." + os.environ["VERIF_BUILD_TAG"] if os.environ.get("VERIF_BUILD_TAG") else ""))
         shutil.rmtree(self.dir, ignore_errors=True)
         os.makedirs(self.dir, exist_ok=True)
         self.violations = []          # (replay_path, has_input)
@@ -377,7 +377,10 @@ class Ctx:
         if self.axioms:
             ev["coverage"]["axioms"] = self.axioms
         os.makedirs(os.path.join(VERIF, "evidence"), exist_ok=True)
-        with open(os.path.join(VERIF, "evidence", self.pid + ".json"), "w") as f:
+        # experiments against a scratch copy of the repository (VERIF_BUILD_TAG) never touch the real evidence
+        evpath = (os.path.join(self.dir, "evidence.json") if os.environ.get("VERIF_BUILD_TAG")
+                  else os.path.join(VERIF, "evidence", self.pid + ".json"))
+        with open(evpath, "w") as f:
             json.dump(ev, f, indent=1, default=repr)
         for k in self.known:
             print(f"KNOWN-FINDING: property={self.pid} {k}")
